@@ -194,9 +194,48 @@ def st_named(names):
                      st.integers(0, 1 << 530), st.integers(0, 1 << 530), digs(), st.booleans(), st.booleans())
 
 
+def flag_history(ctx):
+    """one digest, one key, both allow_truncate settings alternately: each call is judged on its own"""
+    import hashlib as H
+    from ecdsa import SigningKey
+    from ecdsa.keys import BadDigestError
+    for cname in ("NIST521p", "SECP160r1", "SECP112r2", "NIST256p", "t1021a", "t4093", "t251a"):
+        d = gen.dom(cname)
+        n = d.n
+        bl = SU.olen(n)
+        dd, k = n // 3 + 2, n // 5 + 3
+        sk = SigningKey.from_secret_exponent(dd, curve=d.lib)
+        for ln in (bl - 1, bl, bl + 1):
+            if ln < 1:
+                continue
+            for fill in (0xFF, 0x80, 0x5A):
+                digest = bytes([fill]) + H.shake_128(bytes([fill, ln])).digest(ln - 1) if ln > 1 else bytes([fill])
+                for at in (False, True, False, True, True, False):
+                    ctx.ev()
+                    case = {"kind": "flag-history", "curve": cname, "len": ln, "at": at, "digest": digest.hex()}
+                    if not at and ln > bl:
+                        want = "BadDigestError"
+                    else:
+                        want = rdsa.sign(d.ref, dd, k, SU.e_of(digest, n, at))
+                    try:
+                        got = sk.sign_digest(digest, k=k, sigencode=SU.rs_tuple, allow_truncate=at)
+                    except BadDigestError:
+                        got = "BadDigestError"
+                    except RSZeroError:
+                        got = "RS-ZERO"
+                    except Exception as e:
+                        ctx.fail("flag-history/exception/%s" % exc_sig(e), case, repr(e))
+                        continue
+                    if (tuple(got) if isinstance(got, (tuple, list)) else got) != (tuple(want) if isinstance(want, (tuple, list)) else want):
+                        ctx.fail("flag-history/wrong/%s" % ("truncate" if at else "no-truncate"), case,
+                                 "got %r, reference %r" % (got, want))
+                    ctx.nontrivial(("flag-history", cname, ln, fill, at))
+    ctx.sample({"kind": "flag-history", "note": "same digest signed with allow_truncate False, True, False, True, True, False"})
+
+
 def units(tier, seed):
     q = tier == "quick"
-    out = []
+    out = [("flag-history", {})]
     one = [bytes([i]) for i in range(256)]
     multi = [b"\x00\x00", b"\x00\x01", b"\x80\x00", b"\xff\xff", b"\x12\x34", b"\x01\x00\x00", b"\xff\xff\xff"]
     if q:
@@ -229,6 +268,9 @@ def units(tier, seed):
 
 
 def run_unit(ctx, name, **kw):
+    if name == "flag-history":
+        flag_history(ctx)
+        return
     if name == "toy":
         toy_sweep(ctx, kw["curve"], [bytes.fromhex(x) for x in kw["digests"]], kw.get("dstep", 1))
         ctx.sample({"curve": kw["curve"], "d": "all" if kw.get("dstep", 1) == 1 else "stride %d" % kw["dstep"],
@@ -293,7 +335,9 @@ def run_unit(ctx, name, **kw):
 
 def replay(ctx, case):
     k = case.get("kind")
-    if k == "pubkey":
+    if k == "flag-history":
+        flag_history(ctx)
+    elif k == "pubkey":
         check_pubkey(ctx, case["curve"], case["d"], case["route"])
     elif k == "number":
         check_sign_number(ctx, case)
